@@ -69,7 +69,11 @@ class Sink(BaseComponent):
         if not st['closed']:
             st['closed'] = True
             st['closed_at'] = len(st['out'])
-            self.fire(disconnect(sock))
+            if self.rig.defer_disconnect:
+                # a real server closes only after its write buffer has drained: the disconnect comes later
+                st['disconnect_pending'] = True
+            else:
+                self.fire(disconnect(sock))
 
 
 class Rig:
@@ -79,6 +83,7 @@ class Rig:
         self.http = WH.HTTP(self.server, channel='web').register(self.root)
         self.server.http = self.http
         self.conns = {}
+        self.defer_disconnect = False
         self.requests = []      # probe records
         self.exceptions = []
         self.sink = Sink(rig=self).register(self.root)
@@ -130,6 +135,14 @@ class Rig:
     def feed(self, sock, data):
         self.root.fire(read(sock, data), 'web')
         return self.settle()
+
+    def deliver_pending_disconnect(self, sock):
+        st = self.conn(sock)
+        if st.get('disconnect_pending'):
+            st['disconnect_pending'] = False
+            self.root.fire(disconnect(sock), 'web')
+            return self.settle()
+        return True
 
     def peer_disconnect(self, sock):
         self.root.fire(disconnect(sock), 'web')
